@@ -9,10 +9,12 @@ From LP Require Import Num Pay Sg1 Bank MinterVending CreatePrice.
 
 Inductive c07_case :=
 | CSale (c : scase)
-| CCreate (fp : fparams) (price : N) (d : denom) (ok : bool).
+| CCreate (fp : fparams) (price : N) (d : denom) (ok : bool)
+| COeCreate (min : N) (min_denom : denom) (price : N) (d : denom) (capped : bool) (ok : bool).
 
 Definition c07_check (c : c07_case) : bool :=
   match c with
   | CSale s => sale_check s
   | CCreate fp price d ok => Bool.eqb (create_price_ok fp price d) ok
+  | COeCreate m md price d capped ok => Bool.eqb (oe_create_price_ok m md price d capped) ok
   end.
